@@ -172,6 +172,17 @@ pub fn check_run(cfg: &Cfg, run: &Run, cases: &mut Cases, rep: &mut Report) {
                     }
                     if !(call.step_size.is_finite() && call.step_size > 0.0) { rep.violation("c05.bad_step_size", &format!("{what} reports step size {}", call.step_size), replay.clone()); return; }
                     let traj_fault = here.iter().any(|(k, f)| role(run, cfg, call, *k) == 2 && !matches!(f, FaultKind::ZeroGrad | FaultKind::Unrecoverable));
+                    // the divergent sub-tree is discarded: with the fault at the j-th leapfrog of the draw (0-based), the doubling under construction
+                    // started at leapfrog 2^d - 1, d = floor(log2(j + 1)); the returned state is the previous draw or one of the states before that
+                    if here.len() == 1 && traj_fault {
+                        let j = (here[0].0 - call.e0) as usize;
+                        let d = (usize::BITS - 1 - (j + 1).leading_zeros()) as usize;
+                        let keep = (1usize << d) - 1;
+                        let same = |a: &[f64], b: &[f64]| a.len() == b.len() && a.iter().zip(b).all(|(x, y)| x.to_bits() == y.to_bits());
+                        let prev_pos: Vec<f64> = if ci >= 2 { run.calls[ci - 1].pos.clone() } else { cfg.init_pos() };
+                        let ok = same(&call.pos, &prev_pos) || run.log[call.e0 as usize..call.e0 as usize + keep].iter().any(|r| same(&r.pos, &call.pos));
+                        if !ok { rep.violation("c05.draw_from_discarded_doubling", &format!("{what}: fault {:?} at leapfrog {j} of the draw; the returned state is neither the previous draw nor one of the first {keep} states (it belongs to the discarded doubling)", here[0].1), replay.clone()); }
+                    }
                     if traj_fault && !call.diverging { rep.violation("c05.fault_not_divergent", &format!("{what}: fault {:?} inside the trajectory but diverging = false", here), replay.clone()); }
                     if call.diverging && !call.has_msg { rep.violation("c05.no_message", &format!("{what}: divergent draw without divergence_message"), replay.clone()); }
                     if traj_fault { rep.nontrivial += 1; }
